@@ -949,13 +949,13 @@ func c26ClassifyParse(cs *c26Case, calls []*Call, err error, pan string) string 
 		if strings.HasPrefix(cs.vkind, "between") {
 			return "parse conditional-bound outside int64 accepted (silently clamped)"
 		}
-		return "parse integer outside int64 accepted ctx=" + cs.ctx
+		return "parse integer outside int64 accepted"
 	}
 	if cs.vkind == "between-empty-at-limit" {
 		return "parse conditional strict bound at int64 limit wraps around"
 	}
 	if pan != "" {
-		return "parse PANIC ctx=" + cs.ctx + " kind=" + cs.vkind
+		return "parse PANIC kind=" + cs.vkind
 	}
 	if err != nil {
 		msg := err.Error()
@@ -963,13 +963,13 @@ func c26ClassifyParse(cs *c26Case, calls []*Call, err error, pan string) string 
 			if strings.HasPrefix(cs.ctx, "cond") && cs.vkind == "list" {
 				return "parse condition with a list holding a non-number: internal type assertion fails"
 			}
-			return "parse internal type assertion error ctx=" + cs.ctx + " kind=" + cs.vkind
+			return "parse internal type assertion error kind=" + cs.vkind
 		}
-		return "parse grammatical query rejected ctx=" + cs.ctx + " kind=" + cs.vkind
+		return "parse grammatical query rejected kind=" + cs.vkind
 	}
 	leaves := c26DiffCalls(cs.want, calls)
 	if len(leaves) == 0 {
-		return "parse mismatch (no leaf) ctx=" + cs.ctx
+		return "parse mismatch (call count or shape)"
 	}
 	l := leaves[0]
 	ws, wIsStr := l.want.(string)
@@ -992,7 +992,7 @@ func c26ClassifyParse(cs *c26Case, calls []*Call, err error, pan string) string 
 			return "parse keyword null/true/false as LAST list item becomes a string"
 		}
 	}
-	return "parse mismatch ctx=" + cs.ctx + " kind=" + cs.vkind + " at=" + seg + " want=" + c26TypeName(l.want) + " got=" + c26TypeName(l.got)
+	return "parse value changed kind=" + cs.vkind + " want=" + c26TypeName(l.want) + " got=" + c26TypeName(l.got)
 }
 
 // values of a call in deterministic order
@@ -1131,7 +1131,7 @@ func c26ClassifyForward(call *Call, text string, calls []*Call, err error, pan s
 					return name("list-last-bool")
 				}
 			}
-			return "forward value changed at=" + c26LastSeg(l.path) + " sent=" + c26TypeName(l.want) + " reparsed=" + c26TypeName(l.got)
+			return "forward value changed sent=" + c26TypeName(l.want) + " reparsed=" + c26TypeName(l.got)
 		}
 		return "forward mismatch (no leaf)"
 	}
